@@ -78,6 +78,14 @@ def cli_case(rng, idx):
     with cli.Scratch() as sc:
         src = sc.write("src.export", "".join(x[0] for x in sents))
         extra = ["--trans", "filter_by_length", "--params", "filteroperator:lt", "filtervalue:%d" % fval] if use_filter else []
+        # writer / reader options must reach the parts exactly as they reach the unsplit output
+        dopts = {"export": [["export_four"], ["gf"], []], "brackets": [["gf"], ["brackets_emptyroot"], ["gf", "gf_separator:#"], []],
+                 "discobrackets": [["gf"], []], "tigerxml": [[]], "terminals": [["terminals_pos"], []]}[fmt]
+        do = rng.choice(dopts)
+        if do:
+            extra += ["--dest-opts"] + do
+        if rng.random() < 0.3:
+            extra += ["--src-opts", "quiet", "continuous"]
         rc0, _, err0 = cli.run_cli(["transform", src, sc.path("whole"), "--dest-format", fmt] + extra)
         rc, _, err = cli.run_cli(["transform", src, sc.path("part"), "--dest-format", fmt, "--split", spec] + extra)
         observed = None
